@@ -25,7 +25,7 @@ class C09(Spec):
     harness_env = {"GOMAXPROCS": "1"}
     shrink_sep = " ; "
     rule = ("one case = one timed scenario under the Go runtime's virtual clock: K in 1..8, 1-4 producer goroutines x <= 20 sends "
-            "(SendCallback with handler results of 4 scalar and 13 typed shapes — typed nil pointer/map/slice/chan/func, pointer, struct, array, string, error-typed, slice, map, each without/with err; nil handler, SendTask(user task), SendTask(nil), double Do) at scripted instants, one "
+            "(queue built by NewQueue from an explicit option list — WithSize(<=0/1/n, repeated), WithCloseChan(nil/real), WithErrorLogger(nil/real/omitted) in random order, effective capacity / close channel / logger computed by Got.Model.TaskQ.createOptions —; SendCallback with handler results of 4 scalar and 13 typed shapes — typed nil pointer/map/slice/chan/func, pointer, struct, array, string, error-typed, slice, map, each without/with err; nil handler, SendTask(user task), SendTask(nil), SendTask of a task sent before (possibly already executed) and of a taskEmpty, double Do) at scripted instants, one "
             "consumer with a scripted delay per task, optional close (mid-run, exactly at a send instant, early) and optional consumer "
             "stop. compared: every send's begin/return instant and branch, receive sequence with instants, handler executions, Get2 "
             "values rendered with dynamic type / pointer identity and the instants they unblock, Get1 vs Get2, late Get2, panics inside Do, number of 'queue is full' log lines, tasks left in C. The driver runs the "
@@ -60,29 +60,56 @@ class C09(Spec):
             t, kind, tb, tr, out = w.split(":")
             sends[t] = dict(kind=kind, tb=None if tb == "-" else int(tb), tr=None if tr == "-" else int(tr), out=out)
             order.append(t)
-        recv = [(w.split("@")[0], int(w.split("@")[1])) for w in sec["R"]]
+            if out == "panic":
+                return ("send-panic", "send %s (%s) begun at %s panicked; the task was never handed over" % (t, kind, tb))
+        # every send carries a task: the one it created, or (rs<j>) the one created by the same producer's send #j;
+        # re<j> re-sends a taskEmpty, which has no identity (label E)
+        def task_of(t):
+            k = sends[t]["kind"]
+            if k.startswith("rs"):
+                return "%s.%s" % (t.split(".")[0], k[2:])
+            if k.startswith("re"):
+                return "E"
+            return t
+        recv = []
+        for w in sec["R"]:
+            lab, at = w.split("@")
+            recv.append((lab.split("^")[0], int(at), "^" in lab))
         left = sec.get("L", [])
-        # exactly once
-        seen = set()
-        for t, _ in recv:
-            if t in seen:
-                return ("twice", "task %s received twice" % t)
-            if t not in sends:
-                return ("unknown-task", "received %s which was never sent" % t)
-            seen.add(t)
+        arrivals = {}
+        for t, _, _ in recv:
+            arrivals[t] = arrivals.get(t, 0) + 1
         for t in left:
-            if t in seen:
-                return ("twice", "task %s is in the channel although already received" % t)
-            seen.add(t)
-        # per-producer order of what came out of the channel
+            arrivals[t] = arrivals.get(t, 0) + 1
+        sent_all, sent_open = {}, {}
+        for t in order:
+            s = sends[t]
+            if s["kind"] in ("nil", "tn") or s["tb"] is None:
+                continue
+            k = task_of(t)
+            sent_all[k] = sent_all.get(k, 0) + 1
+            if s["tr"] is not None and (close is None or s["tr"] < close):
+                sent_open[k] = sent_open.get(k, 0) + 1
+        # exactly once per send, nothing invented
+        for k, n in arrivals.items():
+            if k != "E" and k not in sends:
+                return ("unknown-task", "received %s which was never sent" % k)
+            if n > sent_all.get(k, 0):
+                return ("twice", "task %s came out of the channel %d times but was sent %d time(s)" % (k, n, sent_all.get(k, 0)))
+        # none dropped while open (also a re-sent, already executed task and a re-sent taskEmpty go through C again)
+        for k, n in sent_open.items():
+            if arrivals.get(k, 0) < n:
+                return ("dropped-open", "task %s: %d send(s) returned while the queue was open (close=%s) but it came out of C only %d time(s)"
+                        % (k, n, close, arrivals.get(k, 0)))
+        # per-producer order of what came out of the channel (first arrivals of tasks created by the producer)
         last = {}
-        for t in [x for x, _ in recv] + left:
+        for t in [x for x, _, again in recv if not again and x != "E"] + [x for x in left if x != "E"]:
             p, i = t.split(".")
             i = int(i)
-            if p in last and i <= last[p]:
+            if p in last and i < last[p]:
                 return ("order", "producer %s: send #%d came out of the channel after #%d" % (p, i, last[p]))
-            last[p] = i
-        # none dropped while open; a send never blocks after close
+            last[p] = max(last.get(p, -1), i)
+        # a send never blocks after close
         for t in order:
             s = sends[t]
             if s["kind"] in ("nil", "tn"):
@@ -92,11 +119,9 @@ class C09(Spec):
             if s["tb"] is None:
                 continue
             if s["tr"] is None:
-                if close is not None:
+                if close is not None and s["out"] != "notask":
                     return ("blocked-after-close", "send %s begun at %d never returned although the queue was closed at %d" % (t, s["tb"], close))
                 continue
-            if (close is None or s["tr"] < close) and t not in seen:
-                return ("dropped-open", "send %s returned at %d while the queue was open (close=%s) but the task never came out of C" % (t, s["tr"], close))
             if close is not None and s["tr"] > max(close, s["tb"]):
                 return ("blocked-after-close", "send %s begun at %d returned only at %d; closed at %d" % (t, s["tb"], s["tr"], close))
         # Get1/Get2 = EXACTLY what the handler returned (dynamic type, value, pointer identity), not before the execution.
@@ -104,6 +129,8 @@ class C09(Spec):
         execs = {}
         for w in sec.get("X", []):
             t, rest = w.split("@", 1)
+            if t == "E":
+                continue
             if rest.endswith("!panic"):
                 return ("do-panic", "Do panicked while the consumer executed task %s (at %s)" % (t, rest[:-6]))
             at, val = rest.split("=", 1)
